@@ -317,7 +317,7 @@ def main():
                 t1 = time.time()
                 second = spec["run"](pid, "medium", seed + 7919, None, ctx)
                 result = merge_results(result, second)
-                result.setdefault("extra", {})["escalated"] = {"why": why, "budget": "medium (8 x quick, capped by thorough), seed + 7919",
+                result.setdefault("extra", {})["escalated"] = {"why": why, "budget": "medium (4 x quick, capped by thorough), seed + 7919",
                                                                "wall_s": round(time.time() - t1, 1)}
         for key, text in result.get("monitor_failures", []):
             hit = [f for f in kf if f.get("match") and re.search(f["match"], key)]
